@@ -153,8 +153,9 @@ def problem_table_algorithm(
         pt.col[PT.CP_COLD.value].fill(0.0)
         pt.col[PT.RCP_COLD.value].fill(0.0)  
 
-    # ΔT_i = T_{i-1} - T_i
-    pt.col[PT.DELTA_T.value] = delta_with_zero_at_start(pt.col[PT.T.value])
+    # ΔT_i = T_{i-1} - T_i (exact row gaps: rows one grid step apart still carry their sliver of duty)
+    T_col = pt.col[PT.T.value]
+    pt.col[PT.DELTA_T.value] = np.insert(T_col[:-1] - T_col[1:], 0, 0.0)
     
     # ΔH_hot = ΔT * CP_hot
     pt.col[PT.DELTA_H_HOT.value] = pt.col[PT.DELTA_T.value] * pt.col[PT.CP_HOT.value]
@@ -230,9 +231,12 @@ def _sum_mcp_between_temperature_boundaries(
         lower_bounds = np.array(temperatures[1:])
         upper_bounds = np.array(temperatures[:-1])
 
-        # Shape: (intervals, streams)
-        active = (t_max[np.newaxis, :] > lower_bounds[:, np.newaxis] + tol * 10) & (
-            t_min[np.newaxis, :] < upper_bounds[:, np.newaxis] - tol * 10
+        # Shape: (intervals, streams). Every stream bound is a grid temperature, so a stream
+        # either spans an interval or misses it: test the interval mid-point, which is safe
+        # for intervals of any width (a fixed margin drops streams from intervals narrower than it).
+        mid = (lower_bounds + upper_bounds) / 2
+        active = (t_max[np.newaxis, :] > mid[:, np.newaxis]) & (
+            t_min[np.newaxis, :] < mid[:, np.newaxis]
         )
 
         return active
